@@ -30,7 +30,7 @@ import ast
 from ..astutil import call_name, calls, const_eval, names_in, param_names, stmts, walk_local
 from ..cfg import CFG
 from ..core import AnalysisError, Mutant
-from ..exprnorm import canon, check_spec, show, spec, summarize
+from ..exprnorm import canon, check_spec, same_expr, show, spec, summarize
 from .C15 import assigns, dead_params, ret_expr, single_def
 
 EXPLANATION = (
@@ -232,7 +232,7 @@ def r1_transform(ctx, s):
     cfg = CFG(ap)
     dom = cfg.dominators()
     guard = [n for n in cfg.nodes if n.kind == "test" and isinstance(n.ast, ast.If)
-             and ast.unparse(n.ast.test) == "mobile_coord.shape[0] != self.rotation.shape[0]"
+             and same_expr(n.ast.test, "mobile_coord.shape[0] != self.rotation.shape[0]")
              and any(isinstance(b, ast.Raise) for b in n.ast.body)]
     rotn = [n for n in cfg.nodes if n.kind == "stmt" and isinstance(n.ast, ast.Assign) and "_multi_matmul" in ast.unparse(n.ast)]
     ctx.need(len(rotn) == 1, "apply: rotation statement")
@@ -457,7 +457,7 @@ def r4_outliers(ctx, s):
     ctx.ob("R4.distance-pair", SUP, f.name, "sq_dist", "sq_dist = distance(filtered_fixed_coord, superimposed_coord) ** 2" in body,
            "outliers are judged by the squared distance between fixed and fitted mobile anchors", loop.lineno)
     thr = next((st for st in loop.body if isinstance(st, ast.Assign) and isinstance(st.value, ast.Compare) and "sq_dist" in ast.unparse(st.value)), None)
-    okt = thr is not None and ast.unparse(thr.value) == "sq_dist <= upper_quantile + outlier_threshold * ipr" \
+    okt = thr is not None and same_expr(thr.value, "sq_dist <= upper_quantile + outlier_threshold * ipr") \
         and "ipr = upper_quantile - lower_quantile" in body
     ctx.ob("R4.threshold", SUP, f.name, ast.unparse(thr.value) if thr is not None else "threshold", okt,
            "kept: sq_dist <= upper quantile + threshold * inter-percentile range", loop.lineno)
